@@ -113,6 +113,40 @@ func main() {
 			if n != len(fs[2:]) {
 				die("swap %s: expected %d imports swapped, got %d", fs[1], len(fs[2:]), n)
 			}
+		case "swapdir":
+			// lenient form for whole package directories: every non-test Go file of the directory gets those of the
+			// listed imports it has swapped (none is fine). It keeps the shims in place when a change to the tree
+			// introduces synchronisation (a pool, a mutex, an atomic) into a file that had none.
+			ents, err := os.ReadDir(filepath.Join(*repo, fs[1]))
+			if err != nil {
+				die("swapdir %s: %v", fs[1], err)
+			}
+			total := 0
+			for _, ent := range ents {
+				name := ent.Name()
+				if ent.IsDir() || !strings.HasSuffix(name, ".go") || strings.HasSuffix(name, "_test.go") {
+					continue
+				}
+				rel := filepath.Join(fs[1], name)
+				if _, overlaid := replace[filepath.Join(*repo, rel)]; overlaid {
+					continue
+				}
+				src, err := os.ReadFile(filepath.Join(*repo, rel))
+				if err != nil {
+					die("swapdir %s: %v", rel, err)
+				}
+				has := false
+				for _, p := range fs[2:] {
+					if bytes.Contains(src, []byte(strconv.Quote(p))) {
+						has = true
+					}
+				}
+				if !has {
+					continue
+				}
+				total += get(rel).swap(fs[2:])
+			}
+			report = append(report, fmt.Sprintf("swapdir %s %v: %d imports", fs[1], fs[2:], total))
 		case "gostmt":
 			j := get(fs[1])
 			n := j.goStmts("", false, false)
